@@ -267,7 +267,7 @@ def require_tzinfo(value: Any) -> Any:
 def parse_date_time(value: str) -> Any:
     """Parse a date/time/date_time value."""
     # fix up timezone part
-    if value[-6] in ["+", "-"] and value[-3] == ":":
+    if len(value) >= 6 and value[-6] in ["+", "-"] and value[-3] == ":":
         value = value[:-3] + value[-2:]
     for pattern, parser in COMPILED_MATCHERS.items():
         if pattern.match(value):
